@@ -265,6 +265,27 @@ theorem default_count_pattern_not_cached (lead pre loc : List Nat) (hl : 58 ∉ 
     servedFromCache (lead ++ pre ++ 58 :: loc) = false :=
   pattern_cache_never_serves_prefixed _ hlen (qname_prefixColon lead pre loc hl hp c cs hloc hc)
 
+/-- **pattern_cache_transparent.** The run-time match-pattern cache is a bounded least-recently-used map
+(`createMatchPattern` + `addToXPathCache`; capacity `eXPathCacheMax` and the eviction shape are read from the source).
+For every history of lookups — any keys, any order, any number of distinct keys, hence any number of evictions — the
+pattern handed out for a key is the pattern that key compiles to.  So `xsl:number` without `count` gets the default
+count pattern of *its* node however many other default patterns were built before.  The proof needs the eviction to
+erase the victim and insert the new pattern under its own key (`evictionAction = eraseVictimInsertNewKey`, checked here by
+`rfl` against the generated constant); it holds for every capacity. -/
+theorem pattern_cache_transparent {α : Type} (compile : List Nat → α) (history : List (List Nat)) :
+    runLookups compile evictionAction patternCacheCapacity [] 0 history = history.map compile := by
+  have hact : evictionAction = .eraseVictimInsertNewKey := rfl
+  rw [hact]
+  exact runLookups_spec compile patternCacheCapacity history [] 0 (fun e he => by simp at he)
+
+/-- the class of defect the theorem excludes: if a full cache *overwrites the victim's value in place*, the victim's
+key is left bound to the new pattern — capacity 2, keys a b c a: the second lookup of `a` is answered with the pattern
+of `c` -/
+theorem pattern_cache_overwrite_counterexample :
+    runLookups (fun k => k) .overwriteVictimValueInPlace 2 [] 0 [[97], [98], [99], [97]] = [[97], [98], [99], [99]] ∧
+    runLookups (fun k => k) .eraseVictimInsertNewKey 2 [] 0 [[97], [98], [99], [97]] = [[97], [98], [99], [97]] := by
+  decide
+
 /-- non-vacuity: `p:i` (one-letter prefix), `@pre:k`; and an unprefixed name *is* cached -/
 example : servedFromCache [112, 58, 105] = false ∧ servedFromCache [64, 112, 114, 101, 58, 107] = false ∧
     servedFromCache [105] = true ∧ PrefixColon [112, 58, 105] := by decide
